@@ -51,3 +51,40 @@ Example C20_batched_descending_refuted_unfixed :
   values2positions_unfixed_1d [5; 4; 3; 2; 1] [5; 3; 1] = [5; 0; 0] /\
   values2positions [[5; 4; 3; 2; 1]] [[5]; [3]; [1]] = Ok [[0]; [2]; [4]].
 Proof. vm_compute. split; reflexivity. Qed.
+
+Require Import PyPrims PyPrimsQ ConvGen ConvTie.
+(* ---------- the single conversions GENERATED from /repo's converter.py (generated/ConvGen.v) are EQUAL to the model (proofs/ConvTie.v):
+   results and errors, for every space, name list and argument ---------- *)
+Theorem C20_source_position2value_equals_model : forall sp p, g_Converter_position2value sp p = position2value sp p.
+Proof. exact position2value_tie. Qed.
+Print Assumptions C20_source_position2value_equals_model.
+Theorem C20_source_value2position_equals_model : forall sp v, g_Converter_value2position sp v = value2position sp v.
+Proof. exact value2position_tie. Qed.
+Print Assumptions C20_source_value2position_equals_model.
+Theorem C20_source_value2para_equals_model : forall names v, g_Converter_value2para names v = Ok (value2para names v).
+Proof. exact value2para_tie. Qed.
+Print Assumptions C20_source_value2para_equals_model.
+Theorem C20_source_para2value_equals_model : forall names p, g_Converter_para2value names p = para2value names p.
+Proof. exact para2value_tie. Qed.
+Print Assumptions C20_source_para2value_equals_model.
+
+(* the round trips, stated for the generated functions *)
+Theorem C20_source_position_roundtrip : forall sp p v, distinct_dims sp -> in_box sp p ->
+  g_Converter_position2value sp p = Ok v -> g_Converter_value2position sp v = Ok p.
+Proof. intros sp p v Hd Hb H. rewrite position2value_tie in H. rewrite value2position_tie. exact (position_roundtrip sp p v Hd Hb H). Qed.
+Print Assumptions C20_source_position_roundtrip.
+
+Theorem C20_source_value_roundtrip : forall sp p v, g_Converter_position2value sp p = Ok v ->
+  exists key, g_Converter_value2position sp v = Ok key /\ g_Converter_position2value sp key = Ok v.
+Proof.
+  intros sp p v H. rewrite position2value_tie in H. destruct (value_roundtrip sp p v H) as (key & A & B).
+  exists key. rewrite value2position_tie, position2value_tie. split; assumption.
+Qed.
+Print Assumptions C20_source_value_roundtrip.
+
+Theorem C20_source_para_roundtrip : forall names v, NoDup names -> length names = length v ->
+  exists p, g_Converter_value2para names v = Ok p /\ g_Converter_para2value names p = Ok v.
+Proof.
+  intros names v Hn Hl. exists (value2para names v). rewrite value2para_tie, para2value_tie. split; [reflexivity|exact (para_roundtrip names v Hn Hl)].
+Qed.
+Print Assumptions C20_source_para_roundtrip.
